@@ -109,6 +109,7 @@ type Gen struct {
 	globals    []string
 	owned      []string // references obtained from a pool in this activation (owned by it)
 	curIdx     int      // index in curBlock of the instruction being executed
+	needGomod      bool
 	pendingAsserts []Clause
 	assertsSeen    map[string]bool
 	leafT      map[string]types.Type // heap name -> Go type of a cell
@@ -526,7 +527,7 @@ func (g *Gen) prelude(body string) string {
 			b.WriteString("(assert (forall ((s Str) (t Str)) (! (or (= s t) (not (= (slen s) (slen t))) (and (bvsle (_ bv0 64) (sdiff s t)) (bvslt (sdiff s t) (slen s)) (not (= (sat s (sdiff s t)) (sat t (sdiff s t)))))) :pattern ((sdiff s t)))))\n")
 		}
 	} else {
-		b.WriteString("(declare-fun ix (Int Int) Int)\n")
+		b.WriteString("(declare-fun ix (Int Int) Int)\n(declare-fun gomod (Int Int) Int)\n")
 		if uses("ix") {
 			b.WriteString("(assert (forall ((o Int) (i Int)) (! (= (ix o i) (+ o i)) :pattern ((ix o i)) :qid ix_ax)))\n")
 		}
